@@ -388,6 +388,7 @@ def c05(ctx):
                     ["fin%s 0" % w, "hash%s 1 %s" % (w, hexs(d))]
             be.append(History(2 * hid + k, lines, {"len": n}))
     miri.other_targets(ctx, be, oracle, keep, "streaming invariance")
+    miri.simd_backends(ctx)     # "for all backends" includes NeonHash and WasmHash: the real aarch64.rs / wasm.rs under Miri
     facts_gate(ctx, "C05")     # translator tie: the source functions this property rests on are the model
     proof_verdict(ctx, ok)
 
@@ -630,6 +631,7 @@ def c06(ctx):
                 ["append %d %s" % (last, hexs(d[cut:])), "ckpt %d" % last, "fin%s %d" % (w, last), "new 9 P %s" % G.keystr(key), "hash%s 9 %s" % (w, hexs(d))]
         be.append(History(hid, lines, {"cut": cut, "len": n}))
     miri.other_targets(ctx, be, oracle, keep + ("CK",), "checkpoint/restore transparency")
+    miri.simd_backends(ctx)     # "for all backends" includes NeonHash and WasmHash: the real aarch64.rs / wasm.rs under Miri
     facts_gate(ctx, "C06")     # translator tie: the source functions this property rests on are the model
     proof_verdict(ctx, ok)
 
@@ -1004,6 +1006,7 @@ def c11(ctx):
         be.append(History(hid, lines, {"count": cnt}))
     miri.other_targets(ctx, be, lambda h, il: "restoring / using an arbitrary checkpoint panicked" if has_panic(il) else None, keep,
                        "restore from arbitrary bytes")
+    miri.simd_backends(ctx)     # "for all backends" includes NeonHash and WasmHash: the real aarch64.rs / wasm.rs under Miri
     facts_gate(ctx, "C11")     # translator tie: from_checkpoint / append / HashPacket of the source are the model
     proof_verdict(ctx, ok)
 
@@ -1356,6 +1359,7 @@ def c14(ctx):
             lines += ["ckpt %d" % r, "restorefrom %d %s %d" % (r + 50, b, r), "ckpt %d" % (r + 50)]
         be.append(History(hid, lines, {"len": n, "nontrivial": n > 0}))
     miri.other_targets(ctx, be, oracle, keep, "canonical checkpoint bytes")
+    miri.simd_backends(ctx)     # "for all backends" includes NeonHash and WasmHash: the real aarch64.rs / wasm.rs under Miri
     facts_gate(ctx, "C14")     # translator tie: the source functions this property rests on are the model
     proof_verdict(ctx, ok)
 
